@@ -32,7 +32,7 @@ FORMS = ["embedding", "nn_gelu", "conv1d", "bias_kw"]
 
 
 def gen_cases(tier: str, seed: int) -> List[Dict[str, Any]]:
-    n = 256 if tier == "quick" else 4000
+    n = 256 if tier == "quick" else 12000
     cases = []
     for i in range(n):
         rng = rng_for(seed, PROPERTY, "prof", i)
